@@ -190,7 +190,8 @@ def check_sparse(case, rec):
     op = build_mpo(case['obj'])
     A0 = [a.copy() for a in op.A]
     Md = op.as_matrix()
-    Ms = op.as_matrix(sparse_format=True)
+    Ms = op.as_matrix(sparse_format=[True, 1, np.True_][case['obj']['seed'] % 3])
+    Md = op.as_matrix(sparse_format=[False, 0, np.False_][case['obj']['seed'] % 3]) if case['obj']['seed'] % 2 else Md
     ref = cmat(A0)
     # rounding scale: product of the site-tensor norms (entries of the matrix may be small through cancellation)
     scale = max(tmag(A0), 1e-300)
